@@ -118,6 +118,8 @@ class Sym:
     def __init__(self, n, d=None):
         if not isinstance(n, Poly):
             n = Poly.const(n)
+        if d is not None and not n.t:
+            d = None            # 0/d = 0 (divisions are assumed defined: every divisor is recorded in state.notes)
         if d is not None:
             if d.is_const():
                 c = d.const_value()
